@@ -17,6 +17,8 @@ def main():
     a = ap.parse_args()
     prop = a.prop.upper()
     seed = int(os.environ.get("VERIF_SEED", "0") or 0)
+    import time
+    t_start = time.time()
     try:
         mod = importlib.import_module("rules." + prop.lower())
     except ImportError as e:
@@ -29,6 +31,7 @@ def main():
         return 2
     F = hir.Facts(facts, meta)
     run = report.Run(prop, a.tier, seed)
+    run.t0 = t_start
     if a.replay:
         print("replaying %s: re-running all rules of %s on the current tree; findings named in the report:" % (a.replay, prop))
         try:
